@@ -413,7 +413,7 @@ func TestThorough(t *testing.T) {
 	for L := 1; L <= 5; L++ {
 		exhaustive(t, L)
 	}
-	fix.Check(t, "random", 20000, func(rt *rapid.T) { run(rt, drawCase(rt), "random") })
+	fix.Check(t, "random", 100000, func(rt *rapid.T) { run(rt, drawCase(rt), "random") })
 }
 
 func TestReplay(t *testing.T) {
